@@ -148,6 +148,13 @@ fn mips_words(full: bool) -> Vec<u32> {
     v.dedup();
     v
 }
+/// MIPS control transfers (branches, jumps): opcodes 1..7, SPECIAL jr / jalr
+fn mips_is_control(w: u32) -> bool {
+    let op = w >> 26;
+    (1..=7).contains(&op) || (op == 0 && matches!(w & 0x3f, 8 | 9))
+}
+/// control transfers placed in the delay slot of another one: beq $1,$2,+4 ; j ; jr $ra ; bal
+const MIPS_CTL_SLOTS: [u32; 4] = [0x10220004, 0x08000400, 0x03e00008, 0x04110001];
 fn ppc_words(full: bool) -> Vec<u32> {
     // rD also carries the CR field of the compares: 28 = cr7 (L = 0), 4 = cr1
     const PPC_REGS_Q: [(u32, u32); 5] = [(0, 0), (1, 2), (31, 31), (28, 3), (4, 0)];
@@ -362,6 +369,8 @@ fn corpus() -> Vec<(usize, u64, Vec<u8>, &'static str)> {
         (2, 0x1000, be(0x10220004), "corpus:mips-beq-noslot"),
         (3, 0x1000, [le(0x10220004), le(0)].concat(), "corpus:mipsel-beq"),
         (2, 0x1000, [be(0x0320f809), be(0)].concat(), "corpus:mips-jalr"),
+        (2, 0x2639e8, [be(0x180028b8), be(0x14567a3c), be(0x8000091a)].concat(), "corpus:mips-branch-in-delay-slot"),
+        (2, 0x242cc8, [be(0xba56405c), be(0x09e9042a), be(0x0f3d7fff), be(0xbcd51466)].concat(), "corpus:mips-jal-in-delay-slot-of-j"),
         (2, 0x1000, be(0x0062080b), "corpus:mips-movn"),
         (2, 0xffff_ffff_ffff_fff0, [be(0), be(0), be(0), be(0)].concat(), "corpus:mips-top-of-memory"),
         (5, 0xffff_ffff_ffff_fff0, [le(0xd503201f), le(0xd503201f), le(0xd503201f), le(0xd503201f)].concat(), "corpus:a64-top-of-memory"),
@@ -384,6 +393,7 @@ struct Plan {
     seed: u64,
     segs: Vec<(u64, u8)>, // (count, segment kind)
     mips: Vec<u32>,
+    mips_ctl: Vec<u32>,
     ppc: Vec<u32>,
     a64: Vec<u32>,
     corpus: Vec<(usize, u64, Vec<u8>, &'static str)>,
@@ -397,15 +407,17 @@ impl Plan {
         let ppc = ppc_words(full);
         let a64 = a64_words(full);
         let corpus = corpus();
+        let mips_ctl: Vec<u32> = mips.iter().copied().filter(|w| mips_is_control(*w)).collect();
         let segs = vec![
             (corpus.len() as u64 * 2, 0u8),
             (mips.len() as u64 * 2 * 2 * 2, 1), // x {mips, mipsel} x policy x {alone, + delay-slot nop}
+            (mips_ctl.len() as u64 * MIPS_CTL_SLOTS.len() as u64 * 2 * 2, 6), // a control transfer in a delay slot
             (ppc.len() as u64 * 2, 2),
             (a64.len() as u64 * 2 * 2, 3),
             (x86_count(full) * 2 * 2, 4),
             (n * 14, 5),
         ];
-        Plan { seed, segs, mips, ppc, a64, corpus, full, nrand: n }
+        Plan { seed, segs, mips, mips_ctl, ppc, a64, corpus, full, nrand: n }
     }
     fn total(&self) -> u64 {
         self.segs.iter().map(|s| s.0).sum()
@@ -436,6 +448,14 @@ impl Plan {
                     bytes.extend_from_slice(&[0, 0, 0, 0]);
                 }
                 Input { tr, intr, addr: addr_of(idx), bytes, class: if slot { "sweep:mips+slot" } else { "sweep:mips" } }
+            }
+            6 => {
+                let intr = k % 2 == 1;
+                let tr = 2 + (k / 2 % 2) as usize;
+                let slot = MIPS_CTL_SLOTS[(k / 4) as usize % MIPS_CTL_SLOTS.len()];
+                let w = self.mips_ctl[(k / 4) as usize / MIPS_CTL_SLOTS.len()];
+                let bytes = [word_bytes(tr, w), word_bytes(tr, slot)].concat();
+                Input { tr, intr, addr: addr_of(idx), bytes, class: "sweep:mips-branch-in-slot" }
             }
             2 => {
                 let w = self.ppc[(k / 2) as usize];
@@ -1069,7 +1089,7 @@ fn main() {
         8,
         serde_json::json!({
             "inputs_lifted": total, "lifts": total * 2, "distinct_shapes": cases.len(),
-            "segments": {"corpus": per_seg[0], "mips_sweep": per_seg[1], "ppc_sweep": per_seg[2], "a64_sweep": per_seg[3], "x86_sweep": per_seg[4], "random": per_seg[5]},
+            "segments": {"corpus": per_seg[0], "mips_sweep": per_seg[1], "ppc_sweep": per_seg[3], "a64_sweep": per_seg[4], "x86_sweep": per_seg[5], "random": per_seg[6], "mips_branch_in_slot": per_seg[2]},
             "structured_words": {"mips": plan.mips.len(), "ppc": plan.ppc.len(), "a64": plan.a64.len(), "x86_strings": x86_count(plan.full)},
             "full_sweeps": plan.full, "random_per_configuration": plan.nrand,
             "outcomes": stats,
